@@ -393,3 +393,69 @@ func c14r19(c *Ctx) {
 		c.undec(R, f.Key, "no definition of the returned item found")
 	}
 }
+
+func init() {
+	addRule("C10", Rule{"C10.R12", "q", "the compressor is never handed an empty body", c10r12})
+	addRule("C11", Rule{"C10.R12", "q", "shared: the compressor is never handed an empty body (a contained panic, no reply)", c10r12})
+}
+
+// c10r12: quicklz.CCompress takes &src[0]. Whether a record is compressed is
+// decided on the size of the whole record (key included), so a long key with an
+// empty value reaches the compressor unless the body's length is tested.
+func c10r12(c *Ctx) {
+	const R = "C10.R12"
+	n := 0
+	for _, f := range c.P.SortedFuncs() {
+		if f.Pkg.Name == "quicklz" {
+			continue
+		}
+		info := f.Info()
+		for _, call := range f.CallsTo("quicklz.CCompress") {
+			n++
+			c.Funcs[f.Key] = true
+			arg := prog.Unparen(call.Expr.Args[0])
+			roots := map[types.Object]bool{}
+			if o := prog.ObjOf(info, arg); o != nil {
+				roots[o] = true
+				for _, d := range f.DefsOfPath(arg) {
+					if d.Rhs != nil {
+						r := prog.Unparen(d.Rhs)
+						if se, ok := r.(*ast.SliceExpr); ok {
+							r = prog.Unparen(se.X)
+						}
+						if o2 := prog.ObjOf(info, r); o2 != nil {
+							roots[o2] = true
+						}
+					}
+				}
+			}
+			ok := false
+			for _, a := range f.GuardsAt(call.Expr) {
+				isLen := func(e ast.Expr) bool {
+					ce, isC := prog.Unparen(e).(*ast.CallExpr)
+					if !isC || prog.CalleeKey(info, ce) != "builtin.len" || len(ce.Args) != 1 {
+						return false
+					}
+					x := prog.Unparen(ce.Args[0])
+					if o := prog.ObjOf(info, x); o != nil && roots[o] {
+						return true
+					}
+					k, _ := prog.FieldOf(info, x)
+					return k == "cmem.CArray.Body"
+				}
+				if prog.AtomCmp(a, token.GTR, isLen, prog.IsIntConst(info, 0)) || prog.AtomCmp(a, token.NEQ, isLen, prog.IsIntConst(info, 0)) || prog.AtomCmp(a, token.GEQ, isLen, prog.IsIntConst(info, 1)) {
+					ok = true
+				}
+				// len(body) > N with N >= 0 on the path (second call under len(body) > len(try))
+				if a.Op == token.GTR && isLen(a.X) {
+					ok = true
+				}
+			}
+			c.check(ok, R, f.Key+": CCompress("+types.ExprString(arg)+") only with a non-empty body", call.Pos(), "len(body) > 0 on every path",
+				"the compressor, which takes the address of the first byte, is reachable with an empty body: `set <240-byte key> 0 0 0` makes the record larger than a block, TryCompress calls CCompress on zero bytes and panics — the panic is contained, the client gets no STORED and the connection is closed")
+		}
+	}
+	if n == 0 {
+		c.undec(R, "quicklz.CCompress", "no call site found")
+	}
+}
